@@ -35,6 +35,17 @@ var bodies = []body{
 	{tag: "ok-print-nonl", src: "print(\"no newline\")"},
 	{tag: "ok-printf", src: "printf(\"%05d|%s\\n\", 42, \"s\")"},
 	{tag: "ok-divzero-float", src: "println(1 / 0)"},
+	// ---- builtins that look at the environment the script runs in ----
+	{tag: "ok-defined-own-name", src: "a = 1\nprintln(defined(\"a\"), defined(\"nosuchname\"))"},
+	{tag: "ok-defined-own-func", src: "func f() { return 1 }\nif !defined(\"f\") { throw \"f is not defined\" }\nprintln(\"ok\")"},
+	{tag: "ok-load-sees-names", src: "greeting = \"hi\"\nload(\"aux-load.ank\")\nprintln(loaded)"},
+	{tag: "ok-keys-of-env-value", src: "m = {\"a\": 1}\nprintln(keys(m), typeOf(args))"},
+	// ---- shapes of the source text itself ----
+	{tag: "ok-long-line", src: "x = \"" + strings.Repeat("a", 70000) + "\"\nprintln(len(x))"},
+	{tag: "ok-long-comment", src: "# " + strings.Repeat("c", 66000) + "\nprintln(\"after the comment\")"},
+	{tag: "ok-crlf-raw-string", src: "x = `a\r\nb`\r\nprintln(len(x))\r\nprintln(\"end\")"},
+	{tag: "ok-cr-only", src: "println(\"a\")\rprintln(\"b\")"},
+	{tag: "ok-tabs-formfeed", src: "\tprintln(\"t\")\n\n\n   println(\"s\")"},
 	// ---- args ----
 	{tag: "args-print", src: "println(args)"},
 	{tag: "args-len", src: "println(len(args))"},
